@@ -65,6 +65,11 @@ def make_form(rng, i, tier):
             if rng.random() < 0.3:
                 cells[rng.choice([x for x in ["relevant", "required", "read_only", "constraint", "calculation"] if x != c])] = rng.choice(words)
             f.survey.insert(rng.randint(0, len(f.survey)), Row("q", t, f"yn{i}_{j}", cells))
+    if i % 4 == 2:
+        # long expressions wrapped over several lines of the cell (spreadsheets, quoted CSV fields and dict input carry the line breaks)
+        f.survey.append(Row("q", "integer", f"ml{i}", {"label": "ml", "constraint": f". >= 18 and\n. <= 99 and\n'c.ml{i}' != ''", "relevant": f"'r.ml{i}' != ''\nor 1 = 1",
+                                                  "constraint_message": f"first line.ml{i}\nsecond line"}))
+        f.meta["multiline"] = True
     if i % 5 == 0:
         f.entities = {"list_name": "ent", "label": "concat('e', '1')"}
         for r in [r for r in f.survey if r.kind == "q" and base_type(r) in ("text", "integer", "decimal")][:3]:
@@ -194,6 +199,8 @@ def _isnum(v):
 
 
 def pat(v):
+    # bind values are attributes: a line break (or tab) inside the cell is written as such and read back by any XML parser as a space
+    v = v.replace("\r\n", " ").replace("\n", " ").replace("\r", " ").replace("\t", " ")
     if "${" in v:
         return ("re", value_pattern(v), v)
     return ("exact", v)
@@ -328,6 +335,10 @@ def run_shard(ctx):
             sheets, done, _ = spelling.apply(sheets, rng, n=(1, 4), only=["header_alias", "header_case", "col_perm", "type_alias", "type_alias"])
             variant = "aliases:" + "+".join(sorted({d.split(":")[0] for d in done}))
         fmt = "dict"
+        if form.meta.get("multiline") and i % 8 == 2 and variant == "plain":
+            fmt = rng.choice(["csv", "xlsx"])
+            variant += f"+multiline:{fmt}"
+            ctx.ctr("multiline_cell_cases")
         if i % 5 == 4:
             # a spreadsheet with a header-less column (an author's scratch column) somewhere among the logic columns: cells must stay under their headers
             h, rows = sheets["survey"]
